@@ -174,6 +174,56 @@ def run_structured(ctx, rng, N):
                 kind, labels(sc, kind)[0][:4], labels(X, kind)[0][:4]), replay)
 
 
+def run_structured_cross(ctx, rng, N):
+    """cross-set models and their rotators on stacked sample axes: each field's scores carry that field's own new labels,
+    also when only the second field is given or the two fields carry different labels"""
+    import pandas as pd
+    import xarray as xr
+    import xeofs as xe
+
+    def labels(t, kind):
+        if kind == "two-dims":
+            return [int(v) for v in t.year.values], [int(v) for v in t.month.values]
+        return [tuple(int(x) for x in v) for v in t.indexes["time"].tolist()], None
+
+    for i in range(N):
+        kind = ["two-dims", "multiindex"][i % 2]
+        cname = ["MCA", "CPCCA"][(i // 2) % 2]
+        p1, p2 = int(rng.integers(3, 5)), int(rng.integers(3, 5))
+
+        def mk(years, p, fname):
+            if kind == "two-dims":
+                return xr.DataArray(rng.standard_normal((len(years), 3, p)), dims=("year", "month", fname),
+                                    coords={"year": years, "month": [1, 2, 3], fname: np.arange(p)})
+            mi = pd.MultiIndex.from_product([years, [1, 2, 3]], names=("yy", "mm"))
+            return xr.DataArray(rng.standard_normal((len(mi), p)), dims=("time", fname), coords={fname: np.arange(p)}).assign_coords(
+                xr.Coordinates.from_pandas_multiindex(mi, "time"))
+        dim = ("year", "month") if kind == "two-dims" else "time"
+        X, Y = mk([2000, 2001, 2002, 2003], p1, "x"), mk([2000, 2001, 2002, 2003], p2, "y")
+        nx, ny = mk([2010, 2011, 2012, 2013], p1, "x"), mk([2020, 2021, 2022, 2023], p2, "y")
+        replay = dict(kind=kind, cls=cname)
+        ctx.case(("c05sx", kind, cname, p1, p2, i), nontrivial=True, tag="%s/%s/stacked-samples" % (cname, kind), sample=dict(cls=cname, structure=kind))
+        try:
+            m = (xe.cross.MCA(n_modes=2, use_pca=False) if cname == "MCA" else xe.cross.CPCCA(n_modes=2, use_pca=False, alpha=0.5))
+            m.fit(X, Y, dim)
+            objs = [(cname, m)]
+            try:
+                rot = Z.rotator_for(cname)(n_modes=2, max_iter=3000)
+                rot.fit(m)
+                objs.append((cname + "Rotator", rot))
+            except RuntimeError:
+                pass
+            for oname, o in objs:
+                ty = o.transform(Y=ny)
+                tx, ty2 = o.transform(X=nx, Y=ny)
+                for what, t, ref in (("Y alone", ty, ny), ("X with other labels than Y", tx, nx), ("Y with other labels than X", ty2, ny)):
+                    if labels(t, kind) != labels(ref, kind) or np.isnan(np.asarray(t.values, dtype=complex)).any():
+                        ctx.violation("C05:%s:%s:labels" % (oname, kind), "%s with %s, transform of %s: scores are labelled %r, that field's new data has %r" % (
+                            oname, kind, what, labels(t, kind)[0][:4], labels(ref, kind)[0][:4]), replay)
+        except Exception as e:
+            ctx.violation("C05:%s:%s:error:%s" % (cname, kind, C.errkind(e)), "%s with %s: transform of new data raised %r" % (cname, kind, e), replay)
+
+
 def run_cross(ctx, rng, N):
     specs = Z.specs()
     names = ["CPCCA", "MCA", "CCA", "RDA", "ComplexMCA"]
@@ -306,6 +356,7 @@ def run(ctx):
     rng = ctx.rng.child("c05").np
     run_single(ctx, rng, ctx.n(36, 800))
     run_structured(ctx, rng, ctx.n(8, 80))
+    run_structured_cross(ctx, rng, ctx.n(4, 60))
     run_cross(ctx, rng, ctx.n(25, 600))
     run_multi(ctx, rng, ctx.n(6, 60))
     run_cross_model(ctx, rng, ctx.n(16, 300))
